@@ -14,5 +14,6 @@ mod verif {
     include!(concat!(env!("ABRA_VERIF_HARNESS_DIR"), "/vm_gc.rs"));
     include!(concat!(env!("ABRA_VERIF_HARNESS_DIR"), "/vm_loc.rs"));
     include!(concat!(env!("ABRA_VERIF_HARNESS_DIR"), "/vm_marshal.rs"));
+    include!(concat!(env!("ABRA_VERIF_HARNESS_DIR"), "/vm_peephole.rs"));
     include!(concat!(env!("ABRA_VERIF_HARNESS_DIR"), "/vm_playback.rs"));
 }
